@@ -3,6 +3,7 @@ package main
 import (
 	"encoding/json"
 	"fmt"
+	"math"
 	"math/rand"
 	"strconv"
 	"strings"
@@ -51,6 +52,9 @@ func (g *timeGen) next(r *rand.Rand) (int64, string) {
 	default:
 		d, tag = g.cur-(n+r.Int63n(3*n+1))*w, "stale"
 	}
+	if g.cur > math.MaxInt64/2 && d < 0 && tag != "before-start" {
+		d = math.MaxInt64 // the offset arithmetic wrapped around: present the largest offset instead
+	}
 	if d > g.cur {
 		g.cur = d
 	}
@@ -64,8 +68,17 @@ func (rcSuite) Gen(r *rand.Rand, i int) Case {
 	}
 	ws := []int64{1, 7, 1_000_000, 1_000_000_000}
 	w := ws[r.Intn(len(ws))]
+	extreme := n > 0 && r.Intn(15) == 0
+	if extreme {
+		w = 1 // 1 ns buckets: the absolute bucket index itself can come within NumBuckets of MaxInt64
+	}
 	c := Case{Header: fmt.Sprintf("rc n=%d w=%d", n, w)}
 	g := &timeGen{n: max(n, 1), w: w}
+	if extreme {
+		g.cur = math.MaxInt64 - r.Int63n(int64(3*n+2))
+		c.Ops = append(c.Ops, fmt.Sprintf("%s %d", pick(r, "inc", "sum", "bk"), g.cur))
+		c.Tags = append(c.Tags, "top-of-index-range")
+	}
 	nops := 1 + r.Intn(40)
 	for j := 0; j < nops; j++ {
 		d, tag := g.next(r)
